@@ -391,7 +391,7 @@ Record R (c : cfg) (s : sess) (k : k02) : Prop := mkR {
   r_live : k2_live k = map lm (out s);
   r_h1 : forall m, In m (out s) -> zin (o_tag m) (k2_h1 k) = snt m;
   r_h1b : forall t, zin t (k2_h1 k) = true -> t < ntag s;
-  r_sh : forall t, zin t (k2_sent k) = true -> zin t (k2_h1 k) = true;
+  r_sh : forall t, zin t (k2_sent k) = true -> t < ntag s;
   r_pend : forall m, In m (out s) -> isPub m = true \/ is_queued m = true ->
            zin (o_tag m) (k2_sent k) = true -> o_dup m = true;
   r_rec : c_clean c <> 1 -> forall t, zin t (k2_rec k) = true ->
@@ -443,7 +443,7 @@ Qed.
 Lemma fresh_sent c s k : R c s k -> zin (ntag s) (k2_sent k) = false.
 Proof.
   intros HR. destruct (zin (ntag s) (k2_sent k)) eqn:E; [|reflexivity].
-  pose proof (r_sh _ _ _ HR _ E) as H. rewrite (fresh_h1 _ _ _ HR) in H. discriminate.
+  pose proof (r_sh _ _ _ HR _ E) as H. lia.
 Qed.
 Lemma fresh_rec c s k : Inv c s -> R c s k -> zin (ntag s) (k2_rec k) = false.
 Proof.
@@ -582,6 +582,7 @@ Proof.
   intros E1 E2 E3 E4 E5 E6 E7 [H1 H2 H3 H4 H5 H6 H7 H8 H9 H10 H11 H12 H13].
   constructor; rewrite ?E1, ?E3, ?E4, ?E5, ?E6, ?E7; try assumption.
   - intros t Ht. specialize (H4 t Ht). lia.
+  - intros t Ht. specialize (H5 t Ht). lia.
   - eapply Forall_impl; [|exact H11]. intros x. apply pk_inv_ext; assumption.
 Qed.
 
@@ -699,8 +700,7 @@ Proof.
       * intros m Hin. rewrite zin_zadd. pose proof (inv_tag_lt _ _ _ I Hin).
         replace (o_tag m =? ntag s) with false by lia. apply H3. exact Hin.
       * intros t Ht. rewrite zin_zadd in Ht. apply orb_true_iff in Ht as [Ht|Ht]; [lia|]. specialize (H4 t Ht). lia.
-      * intros t Ht. rewrite zin_zadd in *. apply orb_true_iff in Ht as [Ht|Ht]; [rewrite Ht; reflexivity|].
-        rewrite (H5 t Ht). apply orb_true_r.
+      * intros t Ht. rewrite zin_zadd in Ht. apply orb_true_iff in Ht as [Ht|Ht]; [lia|]. specialize (H5 t Ht). lia.
       * intros m Hin Hst Hz. rewrite zin_zadd in Hz. pose proof (inv_tag_lt _ _ _ I Hin).
         replace (o_tag m =? ntag s) with false in Hz by lia. exact (H6 m Hin Hst Hz).
       * intros Hc t Ht. rewrite zin_zrem in Ht. apply andb_true_iff in Ht as [_ Ht].
@@ -721,7 +721,7 @@ Proof.
       * intros m Hin. rewrite zin_zadd. pose proof (inv_tag_lt _ _ _ I Hin).
         replace (o_tag m =? ntag s) with false by lia. apply H3. exact Hin.
       * intros t Ht. rewrite zin_zadd in Ht. apply orb_true_iff in Ht as [Ht|Ht]; [lia|]. specialize (H4 t Ht). lia.
-      * intros t Ht. rewrite zin_zadd. rewrite (H5 t Ht). apply orb_true_r.
+      * intros t Ht. specialize (H5 t Ht). lia.
       * intros Hc t Ht. destruct (H7 Hc t Ht) as (m & A & B & C1 & D & E). exists m. repeat split; try assumption. intros _. apply E. exact Hs.
       * apply Forall_app. split.
         -- apply (pk_grow c s k _ _ I (mkR c s k H1 H2 H3 H4 H5 H6 H7 H8 H9 H10 H11 H12 H13));
@@ -753,8 +753,7 @@ Proof.
           rewrite andb_false_r, orb_false_r. apply H3. exact Hin.
         + cbn [o_tag]. rewrite Fh, Z.eqb_refl, andb_true_r. reflexivity.
       - intros t Ht. rewrite Kh in Ht. apply orb_true_iff in Ht as [Ht|Ht]; [specialize (H4 t Ht); lia | lia].
-      - intros t Ht. rewrite Kh. destruct (Ks t Ht) as [Hs'|[-> Hsn]]; [rewrite (H5 t Hs'); reflexivity|].
-        rewrite Hsn, Z.eqb_refl. apply orb_true_r.
+      - intros t Ht. destruct (Ks t Ht) as [Hs'|[-> Hsn]]; [specialize (H5 t Hs'); lia | lia].
       - intros m Hin Hst Hz. apply in_app_or in Hin as [Hin|[<-|[]]].
         + destruct (Ks _ Hz) as [Hs'|[Et _]]; [exact (H6 m Hin Hst Hs')|]. pose proof (inv_tag_lt _ _ _ I Hin). lia.
         + reflexivity || (destruct (Ks _ Hz) as [Hs'|[_ Hsn]]; [cbn [o_tag] in Hs'; congruence|]).
@@ -932,3 +931,555 @@ Proof.
   intros HR. cbn [step]. destruct (sock s) eqn:Hs; cbn [fst snd]; rewrite quiet_op by reflexivity; [|exact HR].
   apply (R_down c s); try reflexivity; [cbn; apply andb_false_r | cbn; tauto | exact HR].
 Qed.
+
+(* ---------------------------------------------------------------- the accepting CONNACK *)
+Lemma pubtags_cl : forall C, pubtags (flat_map cl_pk C) = tags (filter isPub C).
+Proof.
+  induction C as [|m C IH]; [reflexivity|]. cbn [flat_map filter]. rewrite pubtags_app, IH.
+  unfold cl_pk, isPub. destruct (o_st m); try reflexivity. destruct (o_qos m =? 2); reflexivity.
+Qed.
+
+Lemma pubtags_rel : forall L, pubtags (map rel_pk L) = tags L.
+Proof. induction L as [|m L IH]; [reflexivity|]. unfold pubtags in *. cbn [map flat_map]. rewrite IH. reflexivity. Qed.
+
+Lemma noq0_cl_pk m : qos_okb m = true -> Forall noq0 (cl_pk m).
+Proof.
+  intros H. pose proof (qos_pos m H). unfold cl_pk. destruct (o_st m); try constructor.
+  - unfold noq0, pub_pkt. cbn [q_pkt]. lia.
+  - constructor.
+  - destruct (o_qos m =? 2); repeat constructor.
+Qed.
+
+Lemma pubrel_tags_app sel a b : pubrel_tags sel (a ++ b) = pubrel_tags sel a ++ pubrel_tags sel b.
+Proof. unfold pubrel_tags. apply flat_map_app. Qed.
+
+Lemma pubrel_in (can : bool) cn sel :
+  (sel = handed_sel \/ (sel = tx_sel /\ can = true)) ->
+  forall C m, In m C -> isresend m = true -> o_qos m = 2 ->
+  zin (o_tag m) (pubrel_tags sel (flat_map (ev1 can cn) (flat_map cl_pk C))) = true.
+Proof.
+  intros Hsel. induction C as [|x C IH]; intros m Hin Hr Hq; [destruct Hin|].
+  cbn [flat_map]. rewrite flat_map_app, pubrel_tags_app, zin_app. destruct Hin as [->|Hin].
+  - unfold cl_pk, isresend in *. destruct (o_st m); try discriminate.
+    replace (o_qos m =? 2) with true by lia. cbn [flat_map ev1 rel_pkt q_pkt app].
+    destruct Hsel as [->|[-> ->]]; cbn; rewrite Z.eqb_refl; reflexivity.
+  - rewrite (IH m Hin Hr Hq). apply orb_true_r.
+Qed.
+
+Lemma NoDup_app_intro {A} (a b : list A) : NoDup a -> NoDup b -> (forall x, In x a -> In x b -> False) -> NoDup (a ++ b).
+Proof.
+  induction a as [|x a IH]; cbn [app]; intros Ha Hb Hd; [exact Hb|].
+  inversion Ha as [|? ? Hx Ha']; subst. constructor.
+  - intros Hin. apply in_app_or in Hin as [Hin|Hin]; [exact (Hx Hin) | exact (Hd x (or_introl eq_refl) Hin)].
+  - apply IH; [exact Ha' | exact Hb|]. intros y Hy1 Hy2. exact (Hd y (or_intror Hy1) Hy2).
+Qed.
+
+Lemma tags_cl1 C Q : tags (map cl1 C ++ Q) = tags (C ++ Q).
+Proof. rewrite !tags_app. f_equal. unfold tags. rewrite map_map. apply map_ext. apply cl1_tag. Qed.
+
+Lemma step_connack0 c s k r : cfg_ok c = true -> Inv c s -> sock s = true -> cack s = false -> R c s k ->
+  R c (fst (do_rx c s (IConnack 0) r)) (k02_op (pers c) k (snd (do_rx c s (IConnack 0) r))).
+Proof.
+  intros Hcfg I Hs Hck HR. pose proof (inv_qidle _ _ I) as Hi.
+  destruct (connack_char c s r I Hs) as (C & Q & Eo & Sh & E). rewrite E. cbn [fst snd]. clear E.
+  pose proof (sh_C _ _ _ _ _ Sh) as HC. pose proof (sh_Q _ _ _ _ _ Sh) as HQ.
+  set (H := flat_map cl_pk C).
+  assert (HinC : forall x, In x C -> In x (out s)) by (intros; rewrite Eo; apply in_or_app; left; assumption).
+  assert (HinQ : forall x, In x Q -> In x (out s)) by (intros; rewrite Eo; apply in_or_app; right; assumption).
+  assert (HH : Forall noq0 H).
+  { apply Forall_flat_map. apply Forall_forall. intros x Hx. apply noq0_cl_pk. exact (inv_qos_ok _ _ _ I (HinC x Hx)). }
+  pose proof (inv_nodup_tags _ _ I) as Hnd.
+  assert (HndC : NoDup (pubtags H)).
+  { unfold H. rewrite pubtags_cl. unfold tags. apply NoDup_map_filter.
+    rewrite Eo, tags_app in Hnd. apply NoDup_app_l in Hnd. exact Hnd. }
+  assert (Hhc : Forall (hc (pers c) k) H).
+  { apply Forall_flat_map. apply Forall_forall. intros m Hm. unfold cl_pk.
+    destruct (o_st m) eqn:Est; try constructor.
+    - apply (msg_hc c s k m I HR (HinC m Hm)). left. unfold isPub. rewrite Est. reflexivity.
+    - constructor.
+    - destruct (o_qos m =? 2); repeat constructor. }
+  rewrite (hand_all_evs _ _ _ _ Hi HH), (hand_all_fst _ _ _ _ Hi).
+  destruct (hand_fold (pers c) (can_write s) (conn s) H k (r_ok _ _ _ HR) HndC Hhc) as ((Ok1 & L1 & R1 & B1) & A1 & A2 & A3).
+  set (k' := fold_left (k02_ev (pers c)) (flat_map (ev1 (can_write s) (conn s)) H) k) in *.
+  unfold H in A1, A2, A3. rewrite pubtags_cl in A1, A2, A3. fold H in A1, A2, A3.
+  (* the tags of the messages whose PUBLISH is handed over are theirs alone *)
+  assert (Hf1 : forall x, In x (out s) -> zin (o_tag x) (tags (filter isPub C)) = true -> In x C /\ isPub x = true).
+  { intros x Hx Hz. apply zin_tags in Hz as (y & Hy & Et). apply filter_In in Hy as [Hy Hp].
+    assert (y = x) by (eapply tag_inj; [exact Hnd|apply HinC; exact Hy|exact Hx|exact Et]). subst. tauto. }
+  assert (Hf2 : forall x, In x C -> isPub x = true -> zin (o_tag x) (tags (filter isPub C)) = true).
+  { intros x Hx Hp. apply zin_tags. exists x. split; [apply filter_In; tauto | reflexivity]. }
+  (* the relation for the new state, whatever the final [ok] *)
+  assert (Hrel : forall okk, okk = true ->
+            R c (with_q (with_out (connack_s1 s) (map cl1 C ++ Q) (inflight s)) (if can_write s then [] else outq s ++ H))
+              (mkK02 (k2_live k') (k2_h1 k') (k2_h2 k') (k2_sent k') (k2_rec k') (k2_blk k') okk)).
+  { intros okk ->. constructor; cbn [k2_ok k2_live k2_h1 k2_h2 k2_sent k2_rec k2_blk out ntag sock cack first outq blocked
+                                          with_q with_out connack_s1].
+    - reflexivity.
+    - rewrite L1, (r_live _ _ _ HR), Eo, !map_app, map_map. f_equal. apply map_ext. intros a. symmetry. apply lm_cl1.
+    - intros m' Hin. rewrite A1. apply in_app_or in Hin as [Hin|Hin].
+      + apply in_map_iff in Hin as (x & <- & Hx). rewrite cl1_tag. destruct (isPub x) eqn:Ep.
+        * rewrite (Hf2 x Hx Ep), orb_true_r. symmetry. apply snt_cl1_pub. exact Ep.
+        * rewrite (snt_cl1_other _ Ep), <- (r_h1 _ _ _ HR x (HinC x Hx)).
+          destruct (zin (o_tag x) (tags (filter isPub C))) eqn:Ez; [|apply orb_false_r].
+          destruct (Hf1 x (HinC x Hx) Ez). congruence.
+      + rewrite <- (r_h1 _ _ _ HR m' (HinQ m' Hin)).
+        destruct (zin (o_tag m') (tags (filter isPub C))) eqn:Ez; [|apply orb_false_r].
+        destruct (Hf1 m' (HinQ m' Hin) Ez) as [_ Hp].
+        pose proof (queued_npub m' (proj1 (Forall_forall _ _) HQ m' Hin)). congruence.
+    - intros t Ht. rewrite A1 in Ht. apply orb_true_iff in Ht as [Ht|Ht].
+      + exact (r_h1b _ _ _ HR _ Ht).
+      + apply zin_tags in Ht as (y & Hy & <-). apply filter_In in Hy as [Hy _].
+        apply (inv_tag_lt _ _ _ I (HinC y Hy)).
+    - intros t Ht. rewrite A3 in Ht. apply orb_true_iff in Ht as [Ht|Ht].
+      + exact (r_sh _ _ _ HR t Ht).
+      + apply andb_true_iff in Ht as [_ Ht]. apply zin_tags in Ht as (y & Hy & <-). apply filter_In in Hy as [Hy _].
+        apply (inv_tag_lt _ _ _ I (HinC y Hy)).
+    - intros m' Hin Hst Hz. apply in_app_or in Hin as [Hin|Hin].
+      + exfalso. apply in_map_iff in Hin as (x & <- & Hx).
+        pose proof (cl1_wait x (inv_qos_ok _ _ _ I (HinC x Hx)) (proj1 (Forall_forall _ _) HC x Hx)) as Hw.
+        destruct Hst as [Hst|Hst]; revert Hw Hst; unfold is_wait, isPub, is_queued; destruct (o_st (cl1 x)); discriminate.
+      + rewrite A3 in Hz. apply orb_true_iff in Hz as [Hz|Hz].
+        * apply (r_pend _ _ _ HR m' (HinQ m' Hin)); [|exact Hz]. right. exact (proj1 (Forall_forall _ _) HQ m' Hin).
+        * apply andb_true_iff in Hz as [_ Hz]. destruct (Hf1 m' (HinQ m' Hin) Hz) as [_ Hp].
+          pose proof (queued_npub m' (proj1 (Forall_forall _ _) HQ m' Hin)). congruence.
+    - intros Hc t Ht. rewrite R1 in Ht. destruct (r_rec _ _ _ HR Hc t Ht) as (m & Hin & Et & Hq & Hrc & _).
+      rewrite Eo in Hin. apply in_app_or in Hin as [Hin|Hin].
+      + exists (cl1 m). rewrite cl1_tag, cl1_qos.
+        split; [apply in_or_app; left; apply in_map; exact Hin|].
+        repeat split; try assumption; [apply rec_cl1; exact Hrc | discriminate].
+      + exfalso. pose proof (rec_nq m Hrc). pose proof (proj1 (Forall_forall _ _) HQ m Hin). congruence.
+    - intros t Ht. rewrite R1 in Ht. pose proof (r_recl _ _ _ HR t Ht) as H0. rewrite Eo in H0.
+      rewrite tags_cl1. exact H0.
+    - reflexivity.
+    - discriminate.
+    - destruct (can_write s) eqn:Ec; [constructor|]. apply Forall_app. split.
+      + apply Forall_forall. intros y Hy.
+        pose proof (proj1 (Forall_forall _ _) (r_pk _ _ _ HR) y Hy) as Hpk. unfold pk_inv in *.
+        destruct (q_pkt y) as [|mi qs d t| | | |] eqn:Ey; try exact Logic.I.
+        destruct Hpk as (P1 & P2 & P3). split; [|split].
+        * intros Hz. rewrite A3 in Hz. cbn [andb] in Hz. rewrite orb_false_r in Hz. exact (P1 Hz).
+        * intros Hd. rewrite A2, (P2 Hd). reflexivity.
+        * intros E0. destruct (P3 E0) as (A & B & C0). split; [exact A|]. split; [|exact C0].
+          cbn [out with_out with_q]. intros Hin. apply B. rewrite tags_cl1, <- Eo in Hin. exact Hin.
+      + apply Forall_flat_map. apply Forall_forall. intros m Hm. unfold cl_pk.
+        destruct (o_st m) eqn:Est; try constructor.
+        * unfold pk_inv, pub_pkt. cbn [q_pkt].
+          assert (Hp : isPub m = true) by (unfold isPub; rewrite Est; reflexivity).
+          split; [|split].
+          -- intros Hz. rewrite A3 in Hz. cbn [andb] in Hz. rewrite orb_false_r in Hz.
+             apply (r_pend _ _ _ HR m (HinC m Hm)); [left; exact Hp | exact Hz].
+          -- intros Hd. rewrite A2, (Hf2 m Hm Hp), (r_h1 _ _ _ HR m (HinC m Hm)), (snt_pub m Hp), Hd. apply orb_true_r.
+          -- intros E0. pose proof (qos_pos m (inv_qos_ok _ _ _ I (HinC m Hm))). lia.
+        * constructor.
+        * destruct (o_qos m =? 2); repeat constructor.
+    - destruct (can_write s) eqn:Ec; [constructor|]. rewrite pubtags_app.
+      apply NoDup_app_intro; [exact (r_nd _ _ _ HR) | exact HndC|].
+      intros t Ht1 Ht2. unfold H in Ht2. rewrite pubtags_cl in Ht2.
+      unfold tags in Ht2. apply in_map_iff in Ht2 as (m & <- & Hm). apply filter_In in Hm as [Hm Hp].
+      unfold pubtags in Ht1. apply in_flat_map in Ht1 as (y & Hy & Ht1). unfold pubtag in Ht1.
+      destruct (q_pkt y) as [|mi qs d t| | | |] eqn:Ey; try (destruct Ht1; fail). destruct Ht1 as [Et|[]]. subst t.
+      destruct (outq_pub c s k y mi qs d (o_tag m) I HR Hy Ey) as (_ & _ & Hw).
+      destruct (Z.eq_dec qs 0) as [E0|E0].
+      + pose proof (proj1 (Forall_forall _ _) (r_pk _ _ _ HR) y Hy) as Hpk. unfold pk_inv in Hpk. rewrite Ey in Hpk.
+        destruct Hpk as (_ & _ & P3). destruct (P3 E0) as (_ & B & _). apply B. unfold tags. apply in_map. exact (HinC m Hm).
+      + destruct (Hw E0) as (w & Hwi & Et & _ & Hst & _).
+        assert (w = m) by (eapply tag_inj; [exact Hnd | exact Hwi | exact (HinC m Hm) | exact Et]). subst w.
+        revert Hp Hst. unfold isPub, wait_of. destruct (o_st m); try discriminate. destruct (qs =? 1); discriminate.
+    - intros _. rewrite B1. exact (r_blk _ _ _ HR Hs). }
+  unfold k02_op. cbn [existsb is_connack0 fold_left k02_ev]. change (0 =? 0) with true. cbn [orb]. rewrite andb_true_r.
+  fold k'. destruct (pers c) eqn:Ep.
+  - apply Hrel. rewrite Ok1. cbn [andb]. apply forallb_forall. intros t Ht. apply zin_In in Ht.
+    destruct (r_rec _ _ _ HR (pers_true _ Ep) t Ht) as (m & Hin & Et & Hq & Hrc & Hrs).
+    assert (HmC : In m C).
+    { rewrite Eo in Hin. apply in_app_or in Hin as [Hin|Hin]; [exact Hin|].
+      exfalso. pose proof (rec_nq m Hrc). pose proof (proj1 (Forall_forall _ _) HQ m Hin). congruence. }
+    cbn [pubrel_tags flat_map handed_sel tx_sel app].
+    fold (pubrel_tags handed_sel (flat_map (ev1 (can_write s) (conn s)) H)).
+    fold (pubrel_tags tx_sel (flat_map (ev1 (can_write s) (conn s)) H)).
+    rewrite <- Et. unfold H.
+    rewrite (pubrel_in (can_write s) (conn s) handed_sel (or_introl eq_refl) C m HmC (Hrs Hs Hck) Hq). cbn [andb].
+    destruct (can_write s) eqn:Ec.
+    + rewrite (pubrel_in true (conn s) tx_sel (or_intror (conj eq_refl eq_refl)) C m HmC (Hrs Hs Hck) Hq). apply orb_true_r.
+    + rewrite B1, (r_blk _ _ _ HR Hs). unfold can_write in Ec. rewrite Hs in Ec. cbn in Ec. destruct (blocked s); [reflexivity | discriminate].
+  - destruct k' as [a1 a2 a3 a4 a5 a6 a7] eqn:Ek. cbn [k2_ok] in Ok1. subst a7.
+    apply (Hrel true eq_refl).
+Qed.
+
+(* ---------------------------------------------------------------- final acknowledgement (PUBACK / PUBCOMP) *)
+Lemma noq0_rel_pk m : qos_okb m = true -> noq0 (rel_pk m).
+Proof. intros H. pose proof (qos_pos m H). unfold noq0, rel_pk, pub_pkt. cbn [q_pkt]. lia. Qed.
+
+Lemma step_final c s k m ip : cfg_ok c = true -> Inv c s -> sock s = true -> cack s = true ->
+  In m (out s) -> is_wait m = true -> quiet (Inp ip) = true -> R c s k ->
+  R c (fst (do_on_publish c s m)) (k02_op (pers c) k (Inp ip :: snd (do_on_publish c s m))).
+Proof.
+  intros Hcfg I Hs Hck Hin Hw Hip HR. pose proof (inv_qidle _ _ I) as Hi.
+  destruct (on_publish_char c Hcfg s m (inv_m _ _ I) Hs Hck Hin Hw)
+    as (l1 & l2 & Q & j & n & So & Se & SQ & _ & _ & _ & _ & E).
+  rewrite E. cbn [fst snd]. clear E.
+  set (L := firstn j Q). set (B := skipn j Q). set (H := map rel_pk L).
+  assert (Eo : out s = l1 ++ m :: l2 ++ L ++ B).
+  { rewrite So, <- app_assoc. cbn [app]. unfold L, B. rewrite firstn_skipn. reflexivity. }
+  assert (HL : Forall (fun x => is_queued x = true) L) by (apply Forall_firstn; exact SQ).
+  assert (HB : Forall (fun x => is_queued x = true) B) by (apply Forall_skipn; exact SQ).
+  pose proof (inv_nodup_tags _ _ I) as Hnd.
+  (* positions *)
+  assert (Hi1 : forall x, In x l1 -> In x (out s)) by (intros; rewrite Eo; apply in_or_app; left; assumption).
+  assert (Hi2 : forall x, In x l2 -> In x (out s)).
+  { intros; rewrite Eo; apply in_or_app; right; right; apply in_or_app; left; assumption. }
+  assert (HiL : forall x, In x L -> In x (out s)).
+  { intros; rewrite Eo; apply in_or_app; right; right; apply in_or_app; right; apply in_or_app; left; assumption. }
+  assert (HiB : forall x, In x B -> In x (out s)).
+  { intros; rewrite Eo; apply in_or_app; right; right; apply in_or_app; right; apply in_or_app; right; assumption. }
+  pose proof Hnd as Hnd0. rewrite Eo, tags_app in Hnd0.
+  pose proof (NoDup_app_r _ _ Hnd0) as Hnd1. cbn [tags map] in Hnd1. fold (tags (l2 ++ L ++ B)) in Hnd1.
+  inversion Hnd1 as [|? ? Hm2 Hnd2]; subst. rewrite tags_app in Hnd2.
+  pose proof (NoDup_app_r _ _ Hnd2) as Hnd3. rewrite tags_app in Hnd3.
+  pose proof (NoDup_app_l _ _ Hnd3) as HndL.
+  assert (HLtag : forall x y, In x (out s) -> In y L -> o_tag x = o_tag y -> In x L).
+  { intros x y Hx Hy Et. assert (x = y) by (eapply tag_inj; [exact Hnd|exact Hx|apply HiL; exact Hy|exact Et]).
+    subst. exact Hy. }
+  assert (D1 : forall x, In x l1 -> In x L -> False).
+  { intros x H1 H2. apply (NoDup_app_disj _ _ (o_tag x) Hnd0); [apply (in_map o_tag); exact H1|].
+    cbn [tags map]. right. unfold tags. rewrite !map_app. apply in_or_app. right. apply in_or_app. left.
+    apply (in_map o_tag). exact H2. }
+  assert (D2 : forall x, In x l2 -> In x L -> False).
+  { intros x H1 H2. apply (NoDup_app_disj _ _ (o_tag x) Hnd2); [apply (in_map o_tag); exact H1|].
+    rewrite tags_app. apply in_or_app. left. apply (in_map o_tag). exact H2. }
+  assert (D3 : forall x, In x B -> In x L -> False).
+  { intros x H1 H2. apply (NoDup_app_disj _ _ (o_tag x) Hnd3); apply (in_map o_tag); assumption. }
+  assert (HnL : forall x, In x (out s) -> ~ In x L -> zin (o_tag x) (tags L) = false).
+  { intros x Hx Hn. destruct (zin (o_tag x) (tags L)) eqn:Ez; [|reflexivity]. exfalso.
+    apply zin_tags in Ez as (y & Hy & Et). apply Hn. apply (HLtag x y Hx Hy). symmetry. exact Et. }
+  assert (HH : Forall noq0 H).
+  { apply Forall_map. apply Forall_forall. intros x Hx. apply noq0_rel_pk. exact (inv_qos_ok _ _ _ I (HiL x Hx)). }
+  rewrite (hand_all_evs _ _ _ _ Hi HH), (hand_all_fst _ _ _ _ Hi).
+  assert (Hnc : existsb is_connack0 (Inp ip :: CbPublish (o_mid m) (o_tag m) :: Published (o_tag m)
+                                       :: flat_map (ev1 (can_write s) (conn s)) H) = false).
+  { cbn [existsb]. rewrite noconn_ev1. destruct ip; try reflexivity; discriminate. }
+  rewrite k02_op_plain by exact Hnc. cbn [fold_left]. rewrite (quiet_ev _ _ _ Hip). cbn [k02_ev].
+  set (k1 := mkK02 (lrem_tag (o_tag m) (k2_live k)) (k2_h1 k) (k2_h2 k) (k2_sent k) (zrem (o_tag m) (k2_rec k)) (k2_blk k) (k2_ok k)).
+  assert (Hhc : Forall (hc (pers c) k1) H).
+  { apply Forall_map. apply Forall_forall. intros y Hy.
+    pose proof (msg_hc c s k y I HR (HiL y Hy) (or_intror (proj1 (Forall_forall _ _) HL y Hy))) as Hc.
+    unfold hc, rel_pk, pub_pkt in *. cbn [q_pkt] in *. destruct Hc as (C1 & C2 & C3 & C4).
+    unfold k1. cbn [k2_rec k2_h1 k2_sent]. split; [|split; [exact C2|split; [exact C3|exact C4]]].
+    intros Ep. rewrite zin_zrem, (C1 Ep). apply andb_false_r. }
+  assert (HndH : NoDup (pubtags H)) by (unfold H; rewrite pubtags_rel; exact HndL).
+  destruct (hand_fold (pers c) (can_write s) (conn s) H k1 (r_ok _ _ _ HR) HndH Hhc) as ((Ok1 & L1 & R1 & B1) & A1 & A2 & A3).
+  set (k' := fold_left (k02_ev (pers c)) (flat_map (ev1 (can_write s) (conn s)) H) k1) in *.
+  unfold H in A1, A2, A3. rewrite pubtags_rel in A1, A2, A3. fold H in A1, A2, A3.
+  unfold k1 in L1, R1, B1, A1, A2, A3. cbn [k2_live k2_rec k2_blk k2_h1 k2_h2 k2_sent] in L1, R1, B1, A1, A2, A3.
+  set (o' := (l1 ++ l2) ++ map rel1 L ++ B).
+  assert (Ho' : forall x, In x o' -> In x l1 \/ In x l2 \/ (exists y, In y L /\ x = rel1 y) \/ In x B).
+  { intros x Hx. unfold o' in Hx. apply in_app_or in Hx as [Hx|Hx].
+    - apply in_app_or in Hx as [Hx|Hx]; [left | right; left]; exact Hx.
+    - apply in_app_or in Hx as [Hx|Hx]; [|right; right; right; exact Hx].
+      apply in_map_iff in Hx as (y & <- & Hy). right. right. left. exists y. split; [exact Hy | reflexivity]. }
+  assert (Htags' : forall t, In t (tags o') -> In t (tags (out s)) /\ t <> o_tag m).
+  { intros t Ht. unfold tags in Ht. apply in_map_iff in Ht as (x & <- & Hx).
+    destruct (Ho' x Hx) as [Hx'|[Hx'|[(y & Hy & ->)|Hx']]].
+    - split; [apply in_map; exact (Hi1 x Hx')|]. intros Et. apply (NoDup_app_disj _ _ (o_tag x) Hnd0); [apply (in_map o_tag); exact Hx'|].
+      cbn [tags map]. left. symmetry. exact Et.
+    - split; [apply in_map; exact (Hi2 x Hx')|]. intros Et. apply Hm2. rewrite <- Et. unfold tags. rewrite map_app. apply in_or_app. left. apply in_map. exact Hx'.
+    - change (o_tag (rel1 y)) with (o_tag y). split; [apply in_map; exact (HiL y Hy)|]. intros Et. apply Hm2. rewrite <- Et.
+      unfold tags. rewrite !map_app. apply in_or_app. right. apply in_or_app. left. apply in_map. exact Hy.
+    - split; [apply in_map; exact (HiB x Hx')|]. intros Et. apply Hm2. rewrite <- Et.
+      unfold tags. rewrite !map_app. apply in_or_app. right. apply in_or_app. right. apply in_map. exact Hx'. }
+  constructor; cbn [with_out with_q out ntag sock cack first outq blocked].
+  - exact Ok1.
+  - rewrite L1, (r_live _ _ _ HR), Eo, (lrem_tag_split l1 m (l2 ++ L ++ B)) by (rewrite <- Eo; exact Hnd).
+    fold o'. unfold o'. rewrite !map_app, map_map. rewrite <- !app_assoc. reflexivity.
+  - fold o'. intros x Hx. rewrite A1. destruct (Ho' x Hx) as [Hx'|[Hx'|[(y & Hy & ->)|Hx']]].
+    + rewrite (HnL x (Hi1 x Hx') (D1 x Hx')), orb_false_r. apply (r_h1 _ _ _ HR). apply Hi1. exact Hx'.
+    + rewrite (HnL x (Hi2 x Hx') (D2 x Hx')), orb_false_r. apply (r_h1 _ _ _ HR). apply Hi2. exact Hx'.
+    + rewrite snt_rel1. change (o_tag (rel1 y)) with (o_tag y).
+      replace (zin (o_tag y) (tags L)) with true; [apply orb_true_r|].
+      symmetry. apply zin_tags. exists y. split; [exact Hy|reflexivity].
+    + rewrite (HnL x (HiB x Hx') (D3 x Hx')), orb_false_r. apply (r_h1 _ _ _ HR). apply HiB. exact Hx'.
+  - intros t Ht. rewrite A1 in Ht. apply orb_true_iff in Ht as [Ht|Ht].
+    + exact (r_h1b _ _ _ HR _ Ht).
+    + apply zin_tags in Ht as (y & Hy & <-). apply (inv_tag_lt _ _ _ I (HiL y Hy)).
+  - intros t Ht. rewrite A3 in Ht. apply orb_true_iff in Ht as [Ht|Ht].
+    + exact (r_sh _ _ _ HR t Ht).
+    + apply andb_true_iff in Ht as [_ Ht]. apply zin_tags in Ht as (y & Hy & <-). apply (inv_tag_lt _ _ _ I (HiL y Hy)).
+  - fold o'. intros x Hx Hst Hz. destruct (Ho' x Hx) as [Hx'|[Hx'|[(y & Hy & ->)|Hx']]].
+    + exfalso. pose proof (proj1 (Forall_forall _ _) Se x ltac:(apply in_or_app; left; exact Hx')) as Hwx. cbn beta in Hwx.
+      destruct Hst as [Hst|Hst]; revert Hwx Hst; unfold is_wait, isPub, is_queued; destruct (o_st x); discriminate.
+    + exfalso. pose proof (proj1 (Forall_forall _ _) Se x ltac:(apply in_or_app; right; exact Hx')) as Hwx. cbn beta in Hwx.
+      destruct Hst as [Hst|Hst]; revert Hwx Hst; unfold is_wait, isPub, is_queued; destruct (o_st x); discriminate.
+    + exfalso. pose proof (rel1_wait y) as Hwx.
+      destruct Hst as [Hst|Hst]; revert Hwx Hst; unfold is_wait, isPub, is_queued; destruct (o_st (rel1 y)); discriminate.
+    + rewrite A3 in Hz. apply orb_true_iff in Hz as [Hz|Hz].
+      * apply (r_pend _ _ _ HR x (HiB x Hx')); [|exact Hz]. right. exact (proj1 (Forall_forall _ _) HB x Hx').
+      * apply andb_true_iff in Hz as [_ Hz]. rewrite (HnL x (HiB x Hx') (D3 x Hx')) in Hz. discriminate.
+  - fold o'. intros Hc t Ht. rewrite R1, zin_zrem in Ht. apply andb_true_iff in Ht as [Hne Ht].
+    destruct (r_rec _ _ _ HR Hc t Ht) as (x & Hx & Et & Hq & Hrc & Hrs).
+    exists x. split; [|repeat split; assumption].
+    rewrite Eo in Hx. unfold o'. apply in_app_or in Hx as [Hx|[Hx|Hx]].
+    * apply in_or_app. left. apply in_or_app. left. exact Hx.
+    * exfalso. subst x. lia.
+    * apply in_app_or in Hx as [Hx|Hx]; [apply in_or_app; left; apply in_or_app; right; exact Hx|].
+      apply in_or_app. right. apply in_app_or in Hx as [Hx|Hx]; [|apply in_or_app; right; exact Hx].
+      exfalso. pose proof (queued_nrec x (proj1 (Forall_forall _ _) HL x Hx)). congruence.
+  - fold o'. intros t Ht. rewrite R1, zin_zrem in Ht. apply andb_true_iff in Ht as [Hne Ht].
+    pose proof (r_recl _ _ _ HR t Ht) as Hin'. rewrite Eo in Hin'. unfold o'.
+    rewrite !tags_app in *. cbn [tags map] in Hin'. apply in_app_or in Hin' as [Hx|[Hx|Hx]].
+    * apply in_or_app. left. apply in_or_app. left. exact Hx.
+    * exfalso. lia.
+    * fold (tags (l2 ++ L ++ B)) in Hx. rewrite !tags_app in Hx. apply in_app_or in Hx as [Hx|Hx]; [apply in_or_app; left; apply in_or_app; right; exact Hx|].
+      apply in_or_app. right. apply in_app_or in Hx as [Hx|Hx]; apply in_or_app; [left | right; exact Hx].
+      unfold tags. rewrite map_map. exact Hx.
+  - exact (r_first _ _ _ HR).
+  - intros Hc Hf. rewrite R1, (r_clean _ _ _ HR Hc Hf). reflexivity.
+  - fold o'. destruct (can_write s) eqn:Ec; [constructor|]. apply Forall_app. split.
+    + apply Forall_forall. intros y Hy.
+      pose proof (proj1 (Forall_forall _ _) (r_pk _ _ _ HR) y Hy) as Hpk. unfold pk_inv in *.
+      destruct (q_pkt y) as [|mi qs d t| | | |] eqn:Ey; try exact Logic.I.
+      destruct Hpk as (P1 & P2 & P3). split; [|split].
+      * intros Hz. rewrite A3 in Hz. cbn [andb] in Hz. rewrite orb_false_r in Hz. exact (P1 Hz).
+      * intros Hd. rewrite A2, (P2 Hd). reflexivity.
+      * intros E0. destruct (P3 E0) as (A & B0 & C0). split; [exact A|]. split; [|exact C0].
+        cbn [out with_out with_q]. intros Hin'. apply B0. exact (proj1 (Htags' t Hin')).
+    + apply Forall_map. apply Forall_forall. intros y Hy. unfold pk_inv, rel_pk, pub_pkt. cbn [q_pkt].
+      pose proof (proj1 (Forall_forall _ _) HL y Hy) as Hqy. cbn beta in Hqy.
+      split; [|split].
+      * intros Hz. rewrite A3 in Hz. cbn [andb] in Hz. rewrite orb_false_r in Hz.
+        apply (r_pend _ _ _ HR y (HiL y Hy)); [right; exact Hqy | exact Hz].
+      * intros Hd. rewrite A2. replace (zin (o_tag y) (tags L)) with true by (symmetry; apply zin_tags; exists y; split; [exact Hy|reflexivity]).
+        rewrite (r_h1 _ _ _ HR y (HiL y Hy)), (snt_queued y Hqy), Hd. apply orb_true_r.
+      * intros E0. pose proof (qos_pos y (inv_qos_ok _ _ _ I (HiL y Hy))). lia.
+  - destruct (can_write s) eqn:Ec; [constructor|]. rewrite pubtags_app.
+    apply NoDup_app_intro; [exact (r_nd _ _ _ HR) | exact HndH|].
+    intros t Ht1 Ht2. unfold H in Ht2. rewrite pubtags_rel in Ht2.
+    unfold tags in Ht2. apply in_map_iff in Ht2 as (y & <- & Hy).
+    pose proof (proj1 (Forall_forall _ _) HL y Hy) as Hqy. cbn beta in Hqy.
+    unfold pubtags in Ht1. apply in_flat_map in Ht1 as (z & Hz & Ht1). unfold pubtag in Ht1.
+    destruct (q_pkt z) as [|mi qs d t| | | |] eqn:Ez; try (destruct Ht1; fail). destruct Ht1 as [Et|[]]. subst t.
+    destruct (outq_pub c s k z mi qs d (o_tag y) I HR Hz Ez) as (_ & _ & Hwz).
+    destruct (Z.eq_dec qs 0) as [E0|E0].
+    + pose proof (proj1 (Forall_forall _ _) (r_pk _ _ _ HR) z Hz) as Hpk. unfold pk_inv in Hpk. rewrite Ez in Hpk.
+      destruct Hpk as (_ & _ & P3). destruct (P3 E0) as (_ & B0 & _). apply B0. unfold tags. apply in_map. exact (HiL y Hy).
+    + destruct (Hwz E0) as (w & Hwi & Et & _ & Hst & _).
+      assert (w = y) by (eapply tag_inj; [exact Hnd | exact Hwi | exact (HiL y Hy) | exact Et]). subst w.
+      revert Hqy Hst. unfold is_queued, wait_of. destruct (o_st y); try discriminate. destruct (qs =? 1); discriminate.
+  - intros _. rewrite B1. exact (r_blk _ _ _ HR Hs).
+Qed.
+
+(* ---------------------------------------------------------------- PUBREC *)
+Lemma step_pubrec c s k mid r : Inv c s -> sock s = true ->
+  conf_op c s (ORx (IPubrec mid) r) = true -> R c s k ->
+  R c (fst (do_rx c s (IPubrec mid) r)) (k02_op (pers c) k (snd (do_rx c s (IPubrec mid) r))).
+Proof.
+  intros I Hs Hconf HR. cbn [conf_op] in Hconf. rewrite Hs in Hconf. cbn [negb] in Hconf. pose proof (inv_qidle _ _ I) as Hi.
+  unfold do_rx. rewrite Hs. cbn [negb].
+  destruct (find_mid mid (out s)) as [m|] eqn:Ef; cbn [fst snd].
+  - apply andb_true_iff in Hconf as [Hck Hconf]. apply andb_true_iff in Hconf as [Hq Hst].
+    assert (Hw : is_wait m = true) by (unfold is_wait; destruct (o_st m); try reflexivity; discriminate).
+    assert (Hq2 : o_qos m = 2) by lia.
+    destruct (find_mid_split _ _ _ Ef) as (l1 & l2 & Eo & Hn1 & Hmid).
+    set (s1 := with_out s (update_mid mid (fun m0 => set_st m0 MsWaitPubcomp) (out s)) (inflight s)).
+    set (x := mkQ (PPubrel mid (o_tag m)) false).
+    assert (HH : Forall noq0 [x]) by (repeat constructor).
+    rewrite (send_hand_all s1 x). cbn [fst snd].
+    rewrite (hand_all_evs _ _ _ _ Hi HH), (hand_all_fst _ _ _ _ Hi).
+    rewrite k02_op_plain by (cbn [existsb is_connack0 orb]; apply noconn_ev1).
+    cbn [fold_left k02_ev].
+    rewrite (r_live _ _ _ HR), lfind_mid_map, Ef. cbn [option_map]. change (l_tag (lm m)) with (o_tag m).
+    rewrite <- (r_live _ _ _ HR).
+    assert (Eq : forall k0, fold_left (k02_ev (pers c)) (flat_map (ev1 (can_write s1) (conn s1)) [x]) k0 = k0).
+    { intros k0. cbn [flat_map ev1 x q_pkt app]. destruct (can_write s1); reflexivity. }
+    rewrite Eq. clear Eq.
+    unfold s1. cbn [out with_out with_q ntag sock cack first outq blocked].
+    rewrite Eo, (update_mid_split _ _ l1 m l2 Hn1 Hmid).
+    set (m' := set_st m MsWaitPubcomp).
+    assert (Hin : In m (out s)) by (rewrite Eo; apply in_or_app; right; left; reflexivity).
+    assert (Hsub : forall y, In y (l1 ++ m' :: l2) -> y = m' \/ In y (out s)).
+    { intros y Hy. rewrite Eo. apply in_app_or in Hy as [Hy|[Hy|Hy]].
+      - right. apply in_or_app. left. exact Hy.
+      - left. symmetry. exact Hy.
+      - right. apply in_or_app. right. right. exact Hy. }
+    assert (Hsup : forall y, In y (out s) -> y = m \/ In y (l1 ++ m' :: l2)).
+    { intros y Hy. rewrite Eo in Hy. apply in_app_or in Hy as [Hy|[Hy|Hy]].
+      - right. apply in_or_app. left. exact Hy.
+      - left. symmetry. exact Hy.
+      - right. apply in_or_app. right. right. exact Hy. }
+    assert (Htg : tags (l1 ++ m' :: l2) = tags (out s)) by (rewrite Eo; unfold tags; rewrite !map_app; reflexivity).
+    constructor; cbn [with_out with_q out ntag sock cack first outq blocked k2_ok k2_live k2_h1 k2_h2 k2_sent k2_rec k2_blk].
+    + exact (r_ok _ _ _ HR).
+    + rewrite (r_live _ _ _ HR), Eo, !map_app. reflexivity.
+    + intros y Hy. destruct (Hsub y Hy) as [->|Hy'].
+      * change (o_tag m') with (o_tag m). rewrite (r_h1 _ _ _ HR m Hin). rewrite (snt_wait m Hw). reflexivity.
+      * apply (r_h1 _ _ _ HR). exact Hy'.
+    + exact (r_h1b _ _ _ HR).
+    + exact (r_sh _ _ _ HR).
+    + intros y Hy Hsty Hz. destruct (Hsub y Hy) as [->|Hy'].
+      * exfalso. destruct Hsty as [Hsty|Hsty]; discriminate.
+      * exact (r_pend _ _ _ HR y Hy' Hsty Hz).
+    + intros Hc t Ht. rewrite zin_zadd in Ht.
+      assert (Hm' : In m' (l1 ++ m' :: l2)) by (apply in_or_app; right; left; reflexivity).
+      destruct (t =? o_tag m) eqn:Et.
+      * exists m'. split; [exact Hm'|]. repeat split; try assumption; [cbn; lia | congruence].
+      * cbn [orb] in Ht. destruct (r_rec _ _ _ HR Hc t Ht) as (y & Hy & Ety & Hqy & Hrc & Hrs).
+        destruct (Hsup y Hy) as [->|Hy']; [lia|]. exists y. repeat split; assumption.
+    + intros t Ht. rewrite Htg. rewrite zin_zadd in Ht. apply orb_true_iff in Ht as [Ht|Ht].
+      * assert (t = o_tag m) by lia. subst t. unfold tags. apply in_map. exact Hin.
+      * exact (r_recl _ _ _ HR t Ht).
+    + exact (r_first _ _ _ HR).
+    + intros Hc Hf. rewrite (r_first _ _ _ HR Hck) in Hf. discriminate.
+    + assert (Hold : Forall (pk_inv (with_q (with_out s (l1 ++ m' :: l2) (inflight s)) (if can_write s then [] else outq s ++ [x]))
+                         (mkK02 (k2_live k) (k2_h1 k) (k2_h2 k) (k2_sent k) (zadd (o_tag m) (k2_rec k)) (k2_blk k) (k2_ok k))) (outq s)).
+      { eapply Forall_impl; [|exact (r_pk _ _ _ HR)]. intros y. unfold pk_inv. destruct (q_pkt y); try exact (fun a => a).
+        cbn [out with_out with_q ntag k2_sent k2_h2]. rewrite Htg. exact (fun a => a). }
+      change (can_write (with_out s (update_mid mid (fun m0 => set_st m0 MsWaitPubcomp) (out s)) (inflight s))) with (can_write s).
+      destruct (can_write s); [constructor|]. apply Forall_app. split; [exact Hold|]. repeat constructor.
+    + change (can_write (with_out s (update_mid mid (fun m0 => set_st m0 MsWaitPubcomp) (out s)) (inflight s))) with (can_write s).
+      destruct (can_write s); [constructor|]. rewrite pubtags_app. cbn. rewrite app_nil_r. exact (r_nd _ _ _ HR).
+    + exact (r_blk _ _ _ HR).
+  - rewrite k02_op_plain by reflexivity. cbn [fold_left k02_ev].
+    rewrite (r_live _ _ _ HR), lfind_mid_map, Ef. cbn [option_map]. exact HR.
+Qed.
+
+(* ---------------------------------------------------------------- the transport blocks / accepts again *)
+Lemma step_block c s k b : Inv c s -> R c s k ->
+  R c (fst (do_block s b)) (k02_op (pers c) k (snd (do_block s b))).
+Proof.
+  intros I HR. unfold do_block. destruct (sock s) eqn:Hs; [|cbn [fst snd]; rewrite quiet_op by reflexivity; exact HR].
+  destruct b; cbn [fst snd lw].
+  - rewrite k02_op_plain by reflexivity. cbn [fold_left k02_ev].
+    destruct HR as [H1 H2 H3 H4 H5 H6 H7 H8 H9 H10 H11 H12 H13].
+    constructor; cbn [k2_ok k2_live k2_h1 k2_h2 k2_sent k2_rec k2_blk out ntag sock cack first outq blocked with_blocked];
+      try assumption. intros _. reflexivity.
+  - rewrite k02_op_plain by (cbn [existsb is_connack0 orb]; apply noconn_flush). cbn [fold_left].
+    set (k0 := k02_ev (pers c) k (Blk false)).
+    assert (Hwc : Forall (wc (pers c) k0) (outq s)) by exact (outq_wc c s k I HR).
+    destruct (flush_fold02 (pers c) (conn s) (outq s) k0 (r_ok _ _ _ HR) (r_nd _ _ _ HR) Hwc)
+      as ((Ok1 & L1 & R1 & B1) & G1 & G2 & A3).
+    set (k' := fold_left (k02_ev (pers c)) (flush_evs (conn s) (outq s)) k0) in *.
+    unfold k0 in L1, R1, B1, G1, G2, A3. cbn [k02_ev k2_live k2_rec k2_blk k2_h1 k2_h2 k2_sent] in L1, R1, B1, G1, G2, A3.
+    pose proof (inv_nodup_tags _ _ I) as Hnd.
+    constructor; cbn [out ntag sock cack first outq blocked with_q with_blocked]; rewrite ?L1, ?R1, ?G1, ?G2.
+    + exact Ok1.
+    + exact (r_live _ _ _ HR).
+    + exact (r_h1 _ _ _ HR).
+    + exact (r_h1b _ _ _ HR).
+    + intros t Ht. rewrite A3 in Ht. apply orb_true_iff in Ht as [Ht|Ht]; [exact (r_sh _ _ _ HR t Ht)|].
+      apply zin_In in Ht. exact (outq_tags_lt c s k t I HR Ht).
+    + intros m Hin Hst Hz. rewrite A3 in Hz. apply orb_true_iff in Hz as [Hz|Hz]; [exact (r_pend _ _ _ HR m Hin Hst Hz)|].
+      exfalso. apply zin_In in Hz. unfold pubtags in Hz. apply in_flat_map in Hz as (y & Hy & Ht). unfold pubtag in Ht.
+      destruct (q_pkt y) as [|mi qs d t| | | |] eqn:Ey; try (destruct Ht; fail). destruct Ht as [Et|[]]. subst t.
+      destruct (outq_pub c s k y mi qs d (o_tag m) I HR Hy Ey) as (_ & _ & Hwy).
+      destruct (Z.eq_dec qs 0) as [E0|E0].
+      * pose proof (proj1 (Forall_forall _ _) (r_pk _ _ _ HR) y Hy) as Hpk. unfold pk_inv in Hpk. rewrite Ey in Hpk.
+        destruct Hpk as (_ & _ & P3). destruct (P3 E0) as (_ & B0 & _). apply B0. unfold tags. apply in_map. exact Hin.
+      * destruct (Hwy E0) as (w & Hwi & Et & _ & Hstw & _).
+        assert (w = m) by (eapply tag_inj; [exact Hnd | exact Hwi | exact Hin | exact Et]). subst w.
+        destruct Hst as [Hst|Hst]; revert Hst Hstw; unfold isPub, is_queued, wait_of; destruct (o_st m); try discriminate;
+          destruct (qs =? 1); discriminate.
+    + exact (r_rec _ _ _ HR).
+    + exact (r_recl _ _ _ HR).
+    + exact (r_first _ _ _ HR).
+    + exact (r_clean _ _ _ HR).
+    + constructor.
+    + constructor.
+    + intros _. exact B1.
+Qed.
+
+(* ---------------------------------------------------------------- one operation *)
+Lemma with_inm_R c s k i : R c s k -> R c (with_inm s i) k.
+Proof. intros HR. apply (R_ext c s); try reflexivity; try (cbn; lia). exact HR. Qed.
+
+Lemma step_R c s k o : cfg_ok c = true -> Inv c s -> conf_op c s o = true -> R c s k ->
+  R c (fst (step c s o)) (k02_op (pers c) k (snd (step c s o))).
+Proof.
+  intros Hcfg I Hconf HR. destruct o as [q|ok| |p r|mid q|b]; cbn [step].
+  - apply step_publish; assumption.
+  - apply step_reconnect; assumption.
+  - apply step_connlost. exact HR.
+  - destruct (sock s) eqn:Hs.
+    2:{ unfold do_rx. rewrite Hs. cbn [negb fst snd]. rewrite quiet_op by reflexivity. exact HR. }
+    assert (Hreply : forall s1 x pre, Inv c s1 -> R c s1 k -> is_reply x -> forallb quiet pre = true ->
+              R c (fst (let (s2, ev2) := send s1 x in (s2, pre ++ ev2)))
+                  (k02_op (pers c) k (snd (let (s2, ev2) := send s1 x in (s2, pre ++ ev2))))).
+    { intros s1 x pre I1 HR1 Hx Hpre. pose proof (R_send_reply c s1 k x pre I1 Hx Hpre HR1) as H.
+      destruct (send s1 x) as [s2 ev]. exact H. }
+    destruct p as [rc|mid|mid|mid|mid|q mid tag].
+    + (* CONNACK *)
+      cbn [conf_op] in Hconf. rewrite Hs in Hconf. cbn [negb] in Hconf.
+      destruct (rc =? 0) eqn:Erc.
+      * assert (rc = 0) by lia. subst rc. apply step_connack0; try assumption. destruct (cack s); [discriminate|reflexivity].
+      * unfold do_rx. rewrite Hs, Erc. cbn [negb fst snd].
+        rewrite k02_op_plain by (cbn [existsb is_connack0]; rewrite Erc; reflexivity).
+        cbn [fold_left k02_ev].
+        apply (R_down c s); try reflexivity; [cbn; discriminate | exact HR].
+    + (* PUBACK *)
+      unfold do_rx. rewrite Hs. cbn [negb]. cbn [conf_op] in Hconf. rewrite Hs in Hconf. cbn [negb] in Hconf.
+      destruct (find_mid mid (out s)) as [m|] eqn:Ef.
+      * apply andb_true_iff in Hconf as [Hck Hconf]. apply andb_true_iff in Hconf as [Hconf _].
+        apply andb_true_iff in Hconf as [Hq Hst].
+        pose proof (find_mid_In _ _ _ Ef) as [Hin Hmid].
+        assert (Hw : is_wait m = true) by (unfold is_wait; destruct (o_st m); try reflexivity; discriminate).
+        pose proof (step_final c s k m (IPuback mid) Hcfg I Hs Hck Hin Hw eq_refl HR) as H.
+        destruct (do_on_publish c s m) as [s' ev]. exact H.
+      * cbn [fst snd]. rewrite quiet_op by reflexivity. exact HR.
+    + apply step_pubrec; assumption.
+    + (* PUBCOMP *)
+      unfold do_rx. rewrite Hs. cbn [negb]. cbn [conf_op] in Hconf. rewrite Hs in Hconf. cbn [negb] in Hconf.
+      destruct (find_mid mid (out s)) as [m|] eqn:Ef.
+      * apply andb_true_iff in Hconf as [Hck Hconf]. apply andb_true_iff in Hconf as [Hconf _].
+        apply andb_true_iff in Hconf as [Hq Hst].
+        pose proof (find_mid_In _ _ _ Ef) as [Hin Hmid].
+        assert (Hw : is_wait m = true) by (unfold is_wait; destruct (o_st m); try reflexivity; discriminate).
+        pose proof (step_final c s k m (IPubcomp mid) Hcfg I Hs Hck Hin Hw eq_refl HR) as H.
+        destruct (do_on_publish c s m) as [s' ev]. exact H.
+      * cbn [fst snd]. rewrite quiet_op by reflexivity. exact HR.
+    + (* PUBREL *)
+      unfold do_rx, deliver. rewrite Hs. cbn [negb].
+      destruct (in_find mid (inm s)) as [tag|].
+      * destruct (r && negb (c_suppress c)); [|destruct (c_manual c)];
+          try solve [cbn [fst snd app]; rewrite quiet_op by reflexivity; apply with_inm_R; exact HR].
+        apply (Hreply _ _ [Inp (IPubrel mid); CbMessage mid 2 tag]);
+          [apply inv_with_inm; exact I | apply with_inm_R; exact HR | exact Logic.I | reflexivity].
+      * destruct (c_manual c); [cbn [fst snd]; rewrite quiet_op by reflexivity; exact HR|].
+        apply (Hreply _ _ [Inp (IPubrel mid)]); [exact I | exact HR | exact Logic.I | reflexivity].
+    + (* PUBLISH *)
+      unfold do_rx, deliver. rewrite Hs. cbn [negb].
+      destruct (q =? 0); [|destruct (q =? 1)].
+      * destruct (r && negb (c_suppress c)); cbn [fst snd]; rewrite quiet_op by reflexivity; exact HR.
+      * destruct (r && negb (c_suppress c)); [|destruct (c_manual c)];
+          try solve [cbn [fst snd app]; rewrite quiet_op by reflexivity; exact HR].
+        apply (Hreply _ _ [Inp (IPublish q mid tag); CbMessage mid 1 tag]); [exact I | exact HR | exact Logic.I | reflexivity].
+      * pose proof (Hreply s (mkQ (PPubrec mid) false) [Inp (IPublish q mid tag)] I HR Logic.I eq_refl) as H.
+        destruct (send s (mkQ (PPubrec mid) false)) as [s2 ev2]. cbn [fst snd] in *. apply with_inm_R. exact H.
+  - (* ack() *)
+    unfold do_ack. destruct (c_manual c); [|cbn [fst snd]; rewrite quiet_op by reflexivity; exact HR].
+    destruct (q =? 1); [exact (R_send_reply c s k (mkQ (PPuback mid) false) [] I Logic.I eq_refl HR)|].
+    destruct (q =? 2); [exact (R_send_reply c s k (mkQ (PPubcomp mid) false) [] I Logic.I eq_refl HR)|].
+    cbn [fst snd]. rewrite quiet_op by reflexivity. exact HR.
+  - apply step_block; assumption.
+Qed.
+
+(* ---------------------------------------------------------------- whole histories *)
+Lemma run_R c : cfg_ok c = true -> forall ops s k, Inv c s -> R c s k -> conforming_from c s ops = true ->
+  k2_ok (fold_left (k02_op (pers c)) (map snd (run_steps c s ops)) k) = true.
+Proof.
+  intros Hcfg. induction ops as [|o ops IH]; intros s k I HR Hc; cbn [run_steps map fold_left conforming_from] in *.
+  - exact (r_ok _ _ _ HR).
+  - apply andb_true_iff in Hc as [Hc1 Hc2].
+    pose proof (step_R c s k o Hcfg I Hc1 HR) as HR'. pose proof (inv_step c Hcfg s o I Hc1) as I'.
+    destruct (step c s o) as [s' ev]. cbn [fst snd map fold_left] in *.
+    apply (IH s'); assumption.
+Qed.
+
+Lemma R_init c : R c (init c) k02_init.
+Proof.
+  constructor; cbn; try reflexivity; try discriminate; try (intros m []); try constructor.
+Qed.
+
+Theorem c02_proved : C02_stmt.
+Proof.
+  intros c ops Hcfg Hconf. unfold c02_ok, optrace.
+  apply (run_R c Hcfg ops (init c) k02_init (inv_init c) (R_init c) Hconf).
+Qed.
+
+Print Assumptions c02_proved.
